@@ -26,6 +26,64 @@ use std::collections::HashMap;
 
 type L = u32;
 
+/// A literal type of the user's own whose `Ord` (if anything asks for it) has nothing to do with the order of the
+/// codes: the renumbering is defined on codes, so a third of the graphs are run through this type.
+#[derive(Copy, Clone, PartialEq, Eq, Hash, Debug, Default)]
+pub struct WL(u32);
+impl flussab_aiger::Lit for WL {
+    const MAX_CODE: usize = u32::MAX as usize;
+    fn from_code(code: usize) -> Self {
+        WL(code as u32)
+    }
+    fn code(self) -> usize {
+        self.0 as usize
+    }
+}
+impl Ord for WL {
+    fn cmp(&self, o: &Self) -> std::cmp::Ordering {
+        (o.0.rotate_left(7) ^ 0x5a5a_a5a5).cmp(&(self.0.rotate_left(7) ^ 0x5a5a_a5a5))
+    }
+}
+impl PartialOrd for WL {
+    fn partial_cmp(&self, o: &Self) -> Option<std::cmp::Ordering> {
+        Some(self.cmp(o))
+    }
+}
+fn to_wl(a: &Aig<L>) -> Aig<WL> {
+    let w = |x: &L| WL(*x);
+    let ws = |v: &Vec<L>| v.iter().map(w).collect::<Vec<WL>>();
+    Aig {
+        max_var_index: a.max_var_index,
+        inputs: ws(&a.inputs),
+        latches: a.latches.iter().map(|l| Latch { state: WL(l.state), next_state: WL(l.next_state), initialization: l.initialization }).collect(),
+        outputs: ws(&a.outputs),
+        bad_state_properties: ws(&a.bad_state_properties),
+        invariant_constraints: ws(&a.invariant_constraints),
+        justice_properties: a.justice_properties.iter().map(ws).collect(),
+        fairness_constraints: ws(&a.fairness_constraints),
+        and_gates: a.and_gates.iter().map(|g| AndGate { inputs: [WL(g.inputs[0]), WL(g.inputs[1])], output: WL(g.output) }).collect(),
+        symbols: a.symbols.clone(),
+        comment: a.comment.clone(),
+    }
+}
+fn from_wl(o: OrderedAig<WL>) -> OrderedAig<L> {
+    use flussab_aiger::aig::{OrderedAndGate, OrderedLatch};
+    let ws = |v: Vec<WL>| v.into_iter().map(|x| x.0).collect::<Vec<L>>();
+    OrderedAig {
+        max_var_index: o.max_var_index,
+        input_count: o.input_count,
+        latches: o.latches.into_iter().map(|l| OrderedLatch { next_state: l.next_state.0, initialization: l.initialization }).collect(),
+        outputs: ws(o.outputs),
+        bad_state_properties: ws(o.bad_state_properties),
+        invariant_constraints: ws(o.invariant_constraints),
+        justice_properties: o.justice_properties.into_iter().map(ws).collect(),
+        fairness_constraints: ws(o.fairness_constraints),
+        and_gates: o.and_gates.into_iter().map(|g| OrderedAndGate { inputs: [g.inputs[0].0, g.inputs[1].0] }).collect(),
+        symbols: o.symbols,
+        comment: o.comment,
+    }
+}
+
 fn init_code(i: Option<bool>) -> u32 {
     match i {
         Some(false) => 0,
@@ -260,16 +318,39 @@ fn config(o: [bool; 3]) -> RenumberConfig {
     RenumberConfig::default().trim(o[0]).structural_hash(o[1]).const_fold(o[2])
 }
 
-fn done_record(aig: &Aig<L>, res: Result<Result<(OrderedAig<L>, Renumber<L>), AigStructureError<L>>, String>) -> Value {
+/// the outcome of a run in terms of codes, whatever the literal type was
+enum Outcome {
+    Panic(String),
+    Cycle(u32),
+    Undefined(u32),
+    Redefined(u32),
+    Done(OrderedAig<L>, Vec<i64>, usize),
+}
+fn outcome_of<X: flussab_aiger::Lit>(
+    maxvar: usize,
+    res: Result<Result<(OrderedAig<X>, Renumber<X>), AigStructureError<X>>, String>,
+    conv: impl FnOnce(OrderedAig<X>) -> OrderedAig<L>,
+) -> Outcome {
     match res {
-        Err(msg) => json!({"ev":"done","res":"panic","msg":msg}),
-        Ok(Err(AigStructureError::FoundCycle { lit })) => json!({"ev":"done","res":"cycle","lit":lit}),
-        Ok(Err(AigStructureError::LitNotDefined { lit })) => json!({"ev":"done","res":"undefined","lit":lit}),
-        Ok(Err(AigStructureError::LitAlreadyDefined { lit })) => json!({"ev":"done","res":"redefined","lit":lit}),
+        Err(msg) => Outcome::Panic(msg),
+        Ok(Err(AigStructureError::FoundCycle { lit })) => Outcome::Cycle(lit.code() as u32),
+        Ok(Err(AigStructureError::LitNotDefined { lit })) => Outcome::Undefined(lit.code() as u32),
+        Ok(Err(AigStructureError::LitAlreadyDefined { lit })) => Outcome::Redefined(lit.code() as u32),
         Ok(Ok((ord, rn))) => {
-            let map: Vec<i64> = (0..=(2 * aig.max_var_index as u32 + 1))
-                .map(|l| rn.lit_map().get(l).map_or(-1, |x| x as i64))
-                .collect();
+            let map: Vec<i64> = (0..=(2 * maxvar + 1)).map(|l| rn.lit_map().get(X::from_code(l)).map_or(-1, |x| x.code() as i64)).collect();
+            let left = rn.and_gates().len();
+            Outcome::Done(conv(ord), map, left)
+        }
+    }
+}
+
+fn done_record(aig: &Aig<L>, res: Outcome) -> Value {
+    match res {
+        Outcome::Panic(msg) => json!({"ev":"done","res":"panic","msg":msg}),
+        Outcome::Cycle(lit) => json!({"ev":"done","res":"cycle","lit":lit}),
+        Outcome::Undefined(lit) => json!({"ev":"done","res":"undefined","lit":lit}),
+        Outcome::Redefined(lit) => json!({"ev":"done","res":"redefined","lit":lit}),
+        Outcome::Done(ord, map, left_gates) => {
             let meta = ord.symbols == aig.symbols && ord.comment == aig.comment;
             json!({"ev":"done","res":"ok","maxvar":ord.max_var_index,"nin":ord.input_count,
                 "latches": ord.latches.iter().map(|l| json!([l.next_state, init_code(l.initialization)])).collect::<Vec<_>>(),
@@ -279,7 +360,7 @@ fn done_record(aig: &Aig<L>, res: Result<Result<(OrderedAig<L>, Renumber<L>), Ai
                 "fair": lits(&ord.fairness_constraints),
                 "ands": ord.and_gates.iter().map(|g| json!([g.inputs[0], g.inputs[1]])).collect::<Vec<_>>(),
                 "map": map, "meta": meta,
-                "left_gates": rn.and_gates().len()})
+                "left_gates": left_gates})
         }
     }
 }
@@ -288,16 +369,23 @@ fn done_record(aig: &Aig<L>, res: Result<Result<(OrderedAig<L>, Renumber<L>), Ai
 pub fn run_one(id: u64, aig: &Aig<L>, o: [bool; 3]) -> &'static str {
     trace::rec(aig_record(id, aig, o));
     trace::install_hooks("t");
-    let res = crate::catch(|| Renumber::renumber_aig(config(o), aig));
-    trace::uninstall_hooks();
-    let kind = match &res {
-        Err(_) => "panic",
-        Ok(Ok(_)) => "ok",
-        Ok(Err(AigStructureError::FoundCycle { .. })) => "cycle",
-        Ok(Err(AigStructureError::LitNotDefined { .. })) => "undefined",
-        Ok(Err(AigStructureError::LitAlreadyDefined { .. })) => "redefined",
+    let out = if id % 3 == 0 {
+        let w = to_wl(aig);
+        let res = crate::catch(|| Renumber::renumber_aig(config(o), &w));
+        outcome_of(aig.max_var_index, res, from_wl)
+    } else {
+        let res = crate::catch(|| Renumber::renumber_aig(config(o), aig));
+        outcome_of(aig.max_var_index, res, |x| x)
     };
-    trace::rec(done_record(aig, res));
+    trace::uninstall_hooks();
+    let kind = match &out {
+        Outcome::Panic(_) => "panic",
+        Outcome::Done(..) => "ok",
+        Outcome::Cycle(_) => "cycle",
+        Outcome::Undefined(_) => "undefined",
+        Outcome::Redefined(_) => "redefined",
+    };
+    trace::rec(done_record(aig, out));
     kind
 }
 
